@@ -157,6 +157,20 @@ class Kit:
         flavour = desc["flavour"]
         payload = {"asyncio": self._asyncio, "trio": self._trio,
                    "threading": self._threading}[flavour](desc)
+        if desc.get("call_raises") and flavour != "threading":
+            # a plain callable that fails when it is called, before any awaitable exists
+            kit = self
+
+            def failing_call(*args, **kwargs):
+                kit.env.log("start", id=desc["id"], args=args, kwargs=kwargs,
+                            **kit.context(flavour))
+                exc = make_exception(desc["call_raises"])
+                kit.left[desc["id"]] = ("raise", exc)
+                kit.env.log("raising", id=desc["id"], kind=desc["call_raises"])
+                raise exc
+
+            failing_call.__qualname__ = failing_call.__name__ = "failing_call_%s" % desc["id"]
+            return failing_call
         if desc.get("plain") and flavour != "threading":
             # a plain callable that does its first part synchronously and returns the awaitable
             kit = self
